@@ -1,7 +1,7 @@
 (* C04 — Escrow accounts always cover what the chain says it owes. *)
 From Coq Require Import ZArith List.
 From Coq Require Import String.
-From Verif Require Import Base.Harness Base.Dec Model.Escrow Model.Ledger Proofs.EscrowProofs Proofs.LedgerProofs.
+From Verif Require Import Base.Harness Base.Dec Model.Escrow Model.Ledger Model.EscrowTrace Proofs.EscrowProofs Proofs.LedgerProofs Proofs.EscrowTraceProofs.
 Import ListNotations.
 Open Scope Z_scope.
 
@@ -93,3 +93,76 @@ Theorem C04_check_claim_deposit before signer res params after decs :
   c04_step before (Step "ClaimDeposits" signer res params after decs) = [] -> sp_bridge after = sp_bridge before.
 Proof. exact (c04_step_sound_claim_deposit before signer res params after decs). Qed.
 Print Assumptions C04_check_claim_deposit.
+
+(* ---- the refinement between the real application and the machine (trace driver TestC04Trace) ---------------
+
+   A trace = the first observation of the real application + per step the operation derived for it, the
+   chain's verdict and the observation after it (total supply, oracle account, unpaid tips per query, tips pool,
+   credits per selector, reward pool, fee collector, staking pools).  [c04t_check] replays the operations
+   with [estep]; an EndBlock is the block operation [epay_block]. *)
+
+(* the block operation is a sequence of EPayTip / EPayTbr steps of the machine ... *)
+Theorem C04_pay_block_steps qs tbr delta n s s' :
+  epay_block qs tbr delta n s = Some s' ->
+  exists ops, Forall is_payout ops /\ erun_strict ops s = Some s' /\ fold_left estep_total ops s = s'.
+Proof. exact (epay_block_steps qs tbr delta n s s'). Qed.
+Print Assumptions C04_pay_block_steps.
+
+(* ... so it preserves the invariant ... *)
+Theorem C04_pay_block_inv qs tbr delta n s s' : einv s -> epay_block qs tbr delta n s = Some s' -> einv s'.
+Proof. exact (epay_block_inv qs tbr delta n s s'). Qed.
+Print Assumptions C04_pay_block_inv.
+
+(* ... and its payouts together credit exactly the observed per-selector delta, move coins only from the oracle
+   account and the reward pool into the tips pool, and count at most max(n, entries of delta + number of
+   payouts) credit entries *)
+Theorem C04_pay_block_effect qs tbr delta n s s' :
+  pay_targets qs tbr <> [] -> epay_block qs tbr delta n s = Some s' ->
+  e_credits s' = credits_add delta (e_credits s)
+  /\ e_supply s' = e_supply s /\ e_users s' = e_users s /\ e_feecoll s' = e_feecoll s /\ e_bonded s' = e_bonded s
+  /\ e_oracle s' + e_tips s' + e_tbr s' = e_oracle s + e_tips s + e_tbr s
+  /\ e_oracle s' <= e_oracle s /\ e_tbr s' <= e_tbr s
+  /\ e_credit_ops s <= e_credit_ops s' <= e_credit_ops s + Z.max n (Z.of_nat (List.length delta + List.length (pay_targets qs tbr))).
+Proof. exact (epay_block_effect qs tbr delta n s s'). Qed.
+Print Assumptions C04_pay_block_effect.
+
+(* every trace operation (message, BeginBlock, EndBlock, report) keeps the invariant *)
+Theorem C04_trace_step_inv s o s' : einv s -> tstep_fn s o = Some s' -> einv s'.
+Proof. exact (tstep_fn_inv s o s'). Qed.
+Print Assumptions C04_trace_step_inv.
+
+(* a run of trace operations is a run of the machine of Model/Escrow.v: the same final state by ETip / EMint /
+   EWithdrawTip / EPayTip / EPayTbr steps, and every state on the way is reached by such steps *)
+Theorem C04_trace_run_is_machine_run s ops :
+  fold_left tstep_total ops s = fold_left estep_total (tflat_all s ops) s
+  /\ Forall (fun s' => exists eops, s' = fold_left estep_total eops s) (trun s ops).
+Proof. exact (c04t_run_is_machine_run s ops). Qed.
+Print Assumptions C04_trace_run_is_machine_run.
+
+(* soundness of the check: a trace without issue starts in a state that satisfies the invariant, the observations
+   after its steps are exactly the states the machine runs through from there (projected to the observed
+   fields, maps in canonical form), and the machine steps exactly on the operations the chain accepted *)
+Theorem C04_trace_check_sound init ops0 steps :
+  c04t_check (C04T init ops0 steps) = [] ->
+  einv (tinit init ops0)
+  /\ map ob_canon (tobserved init steps) = map tproj (trun (tinit init ops0) (map ts_op steps))
+  /\ verdicts_agree (tinit init ops0) steps.
+Proof. exact (c04t_check_sound init ops0 steps). Qed.
+Print Assumptions C04_trace_check_sound.
+
+(* hence (with C04_inv_histories) every observed state of such a trace is the projection of a machine state that
+   satisfies the invariant *)
+Theorem C04_trace_observed_inv init ops0 steps :
+  c04t_check (C04T init ops0 steps) = [] ->
+  Forall (fun o => exists s, einv s /\ tproj s = ob_canon o) (tobserved init steps).
+Proof. exact (c04t_check_observed_inv init ops0 steps). Qed.
+Print Assumptions C04_trace_observed_inv.
+
+(* in the observed numbers: the oracle account equals the unpaid tips, no credit is negative, the tips pool
+   covers the whole-unit credits (fewer than 10^18 credit entries written) *)
+Theorem C04_trace_observed_meaning o s : einv s -> tproj s = ob_canon o ->
+  ob_oracle o = owed_sum (ob_owed o)
+  /\ Forall (fun c => 0 <= snd c) (canon (ob_credits o))
+  /\ (e_credit_ops s < P -> floor_sum (ob_credits o) <= ob_tips o).
+Proof. exact (c04t_observed_meaning o s). Qed.
+Print Assumptions C04_trace_observed_meaning.
